@@ -254,6 +254,8 @@ pub const T_SMALL: &[Target] = &[
     tgt!("", [""]),
     tgt!("a:", ["a:"]),
     tgt!("a:::b", ["a", ":b"]),
+    tgt!("x::a", ["x", "a"]),
+    tgt!("a::x::b", ["a", "x", "b"]),
 ];
 
 // ---- instances ---------------------------------------------------------------------------
